@@ -164,7 +164,9 @@ MUX = {
            'equal-but-not-identical objects, nesting in group_by/roll/split, many keys.',
     'C05': 'C05: the child lifetimes at the head of roll\'s inner pipeline must be Windows(w, s, n) created, fed '
            'and closed in the right steps and closed in opening order: all 1<=w,s<=5 (6), lengths 0..14, '
-           'interleaved parents, nesting.',
+           'interleaved parents, nesting. Unbounded complement: the inductive invariant of RollRing.tla (the slot '
+           'ring holds exactly the windows that should be open, so a slot is free when recycled) is discharged by '
+           'Apalache for fixed geometries and every stream length.',
     'C06': 'C06: child lifetimes of split must be the maximal runs Runs(predicate values): exhaustive sequences, '
            'predicates returning equal-but-not-identical objects, nesting.',
     'C07': 'C07: non-empty child lifetimes of time_split must be Sessions(active, inactive, closing, include): '
